@@ -623,3 +623,69 @@ def reproduce(ctx, binp, bad_events, extra_env=None, history=None):
     if len(confirmed) != len(bad_events):
         ctx.log("WARNING: %d rejected events were not reproduced" % (len(bad_events) - len(confirmed)))
     return confirmed
+
+
+def call_histories(ctx, binp, events, ops, module, what, chunk=None, extra_env=None, settle=None, prefix=None, select=None, stateful=False):
+    """Leg G of the caller-history model (spec/CallHistory.tla): TLC writes all histories of three calls over three inputs
+    x {own, keep} (CallHistoryGen); for each operation in `ops` three recorded inputs of one shape (equal field lengths,
+    so that they share the caller's reused buffers) are taken from `events`, every history is replayed on the real
+    function with the mode the model prescribes, and each call is judged by the property's own trace specification."""
+    gen = read_ndjson(generate(ctx, "CallHistoryGen", name="G_CallHistoryGen"))
+    items = []
+    for op in ops:
+        cand = [e for e in events if e["op"] == op and not e.get("par") and not (isinstance(e.get("in"), dict) and e["in"].get("par"))
+                and (select is None or select(e))]
+
+        def shape(e):
+            return json.dumps({k: (len(v) if isinstance(v, list) else (v if not isinstance(v, (dict, float)) else None))
+                               for k, v in sorted(e["in"].items())}, sort_keys=True)
+        groups = {}
+        for e in cand:
+            groups.setdefault(shape(e), [])
+            if all(digest(e["in"]) != digest(x["in"]) for x in groups[shape(e)]) and len(groups[shape(e)]) < 3:
+                groups[shape(e)].append(e)
+        full = [g for g in groups.values() if len(g) == 3]
+        for g in full[:2]:                    # two shapes per operation
+            for h in gen:
+                for c in h["calls"]:
+                    items.append(dict(op=op, mode=c["mode"], **{"in": g[c["i"] - 1]["in"]}))
+    if not items:
+        ctx.skipped.append("caller histories: no three recorded inputs of one shape for %s" % ", ".join(ops))
+        return
+    npre = len(prefix or [])
+    items = list(prefix or []) + items
+    d = ctx.rundir("call_histories")
+    write_ndjson(d + "/in.ndjson", items)
+    run_driver(ctx, binp, "replay", d + "/o.ndjson", infile=d + "/in.ndjson", extra_env=extra_env)
+    ev = read_ndjson(d + "/o.ndjson")
+    for i, e in enumerate(ev):
+        e["t"], e["i"] = 1, i + 1
+    note_events(ctx, ev, keep=0)
+    ctx.legs.setdefault("G", []).append(dict(module="CallHistoryGen", histories=len(gen), calls=len(items), ops=list(ops)))
+    bad = validate_trace(ctx, module, ev, chunk=(10 ** 9 if stateful else chunk), label="T_call_histories", stateful=stateful)
+    if not bad:
+        return
+    # a rejection is confirmed by replaying the whole sequence of calls (with its modes) once more
+    run_driver(ctx, binp, "replay", d + "/o2.ndjson", infile=d + "/in.ndjson", extra_env=extra_env)
+    again = read_ndjson(d + "/o2.ndjson")
+    for b in bad:
+        a = again[b["i"] - 1] if b["i"] - 1 < len(again) else None
+        if a is not None and a.get("out") == b.get("out"):
+            conf = dict(b)
+            conf["history_position"] = b["i"]
+            if settle is None or settle([conf]):
+                ctx.bad.append(dict(event=conf, reason=what + " (in a TLC-generated caller history: reused input buffer, results overwritten or kept)"))
+        else:
+            ctx.notes.append("non-reproduced caller-history rejection dropped (call %d)" % b["i"])
+
+
+def call_history_model(ctx):
+    """Leg M of the caller-history model: the honest implementation is correct for every history up to Depth; each of the
+    three flawed implementations (memo by reference, cache entry handed out, pooled result) violates `Correct` within the
+    depth the generated histories cover (vacuity control: the history set can expose what it is meant to expose)."""
+    model_check(ctx, "CallHistory", cfg="CallHistory_honest", name="M_CallHistory_honest", timeout=300)
+    for impl in ("memoByRef", "cacheEntry", "pool"):
+        r = tlc(ctx, "CallHistory", cfg="CallHistory_" + impl, workers=2, name="M_CallHistory_" + impl, check_ok=False, count=False)
+        if "Invariant Correct is violated" not in r["out"]:
+            raise Infra("caller-history model: the flawed implementation %s is not exposed within the generated depth" % impl)
+    ctx.notes.append("caller-history model: honest implementation correct to depth 3; memoByRef, cacheEntry and pool each violate Correct within depth 3")
